@@ -1,5 +1,5 @@
 \* negative job: this mutant of the model must be rejected by AllQualified (anti-vacuity)
-CONSTANTS MaxDepth = 1  SharedEnv = FALSE  NoEnv = FALSE  QualSpecial = TRUE
+CONSTANTS MaxDepth = 1  SharedEnv = FALSE  NoEnv = FALSE  QualSpecial = TRUE  NestShares = FALSE
 SPECIFICATION Spec
 INVARIANT AllQualified
 CHECK_DEADLOCK FALSE
